@@ -95,6 +95,9 @@ def gen(rng, tier):
             if wrap and rng.random() < 0.3:
                 v += rng.choice([-box, box])
                 classes.add('out-of-range')
+            if wrap and rng.random() < 0.05:
+                v = -box * 2.0 ** rng.choice([-27, -30, -56, -60])     # wraps to exactly `box` in the position dtype
+                classes.add('wraps-to-box')
             v = float(ft(v))
             if not wrap:
                 v = min(max(v, 0.0), box)
